@@ -231,6 +231,9 @@ class Parser:
     def type_name(self):
         """parse a type spelling inside <...> or before {...}"""
         parts = []
+        if self.at('::'):
+            # globally qualified spelling `::std::size_t`
+            self.next()
         while True:
             k, v = self.peek()
             if k == 'id' and v in ('const', 'typename'):
